@@ -22,6 +22,7 @@ import (
 	"github.com/tikv/pd/server"
 	"github.com/tikv/pd/server/core"
 	"github.com/tikv/pd/server/kv"
+	"github.com/tikv/pd/server/tso"
 	"verif/harness/lib/ev"
 	"verif/harness/lib/hist"
 	"verif/harness/lib/kvx"
@@ -34,6 +35,9 @@ const gcKey = "gc/safe_point"
 type gcIn struct {
 	Update bool   `json:"update"`
 	V      uint64 `json:"v"`
+	// Unknown: the request failed at the client although its write was applied (lost acknowledgement):
+	// it takes effect somewhere inside its call interval, its response is not known.
+	Unknown bool `json:"unknown,omitempty"`
 }
 
 type gcOp struct {
@@ -57,7 +61,7 @@ func maxRegisterModel(init uint64) porcupine.Model {
 				if i.V > n {
 					n = i.V
 				}
-				return o == n, n
+				return i.Unknown || o == n, n
 			}
 			return o == s, s
 		},
@@ -71,6 +75,8 @@ type env struct {
 	m   *srv.Member
 	kv  *kvx.KV
 	ctx context.Context
+	// the server's own region storage (kept when the kv behind the storage is swapped)
+	regionStorage *core.RegionStorage
 }
 
 func (e *env) update(v uint64) (uint64, error) {
@@ -153,10 +159,22 @@ func (e *env) judge(mode string, init uint64, ops []gcOp, log []kvx.Event, trace
 		}
 	}
 	// (c) linearizable w.r.t. the max-register
+	appliedFaulted := map[uint64]bool{}
+	for _, le := range log {
+		if le.Kind == "Save" && le.Key == gcKey && le.Fault == "lost-ack" {
+			v, _ := strconv.ParseUint(le.Value, 16, 64)
+			appliedFaulted[v] = true
+		}
+	}
 	var pops []porcupine.Operation
 	for _, o := range ops {
 		if o.Err != "" {
-			continue // failed requests impose no constraint here (no faults are injected in this check)
+			// a failed request imposes no constraint unless its write is in the storage log (values are
+			// unique per request in the histories that inject faults)
+			if o.In.Update && appliedFaulted[o.In.V] {
+				pops = append(pops, porcupine.Operation{ClientId: o.W, Input: gcIn{true, o.In.V, true}, Call: o.Call, Output: uint64(0), Return: o.Ret})
+			}
+			continue
 		}
 		pops = append(pops, porcupine.Operation{ClientId: o.W, Input: o.In, Call: o.Call, Output: o.Out, Return: o.Ret})
 	}
@@ -187,7 +205,7 @@ func (e *env) gated(vals []uint64, withGet bool, choose func(int, []sched.Info) 
 		ws = append(ws, func() {
 			c := hist.Tick()
 			out, err := e.update(vals[i])
-			ops[i] = gcOp{W: i, In: gcIn{true, vals[i]}, Out: out, Call: c, Ret: hist.Tick()}
+			ops[i] = gcOp{W: i, In: gcIn{Update: true, V: vals[i]}, Out: out, Call: c, Ret: hist.Tick()}
 			if err != nil {
 				ops[i].Err = err.Error()
 			}
@@ -198,7 +216,7 @@ func (e *env) gated(vals []uint64, withGet bool, choose func(int, []sched.Info) 
 		ws = append(ws, func() {
 			c := hist.Tick()
 			out, err := e.get()
-			ops[i] = gcOp{W: i, In: gcIn{false, 0}, Out: out, Call: c, Ret: hist.Tick()}
+			ops[i] = gcOp{W: i, In: gcIn{}, Out: out, Call: c, Ret: hist.Tick()}
 			if err != nil {
 				ops[i].Err = err.Error()
 			}
@@ -311,7 +329,7 @@ func (e *env) stressPhase(rng *rand.Rand) {
 					if lr.Intn(4) == 0 {
 						c := hist.Tick()
 						out, err := e.get()
-						o = gcOp{W: w, In: gcIn{false, 0}, Out: out, Call: c, Ret: hist.Tick()}
+						o = gcOp{W: w, In: gcIn{}, Out: out, Call: c, Ret: hist.Tick()}
 						if err != nil {
 							o.Err = err.Error()
 						}
@@ -319,7 +337,7 @@ func (e *env) stressPhase(rng *rand.Rand) {
 						v := uint64(lr.Intn(100))
 						c := hist.Tick()
 						out, err := e.update(v)
-						o = gcOp{W: w, In: gcIn{true, v}, Out: out, Call: c, Ret: hist.Tick()}
+						o = gcOp{W: w, In: gcIn{Update: true, V: v}, Out: out, Call: c, Ret: hist.Tick()}
 						if err != nil {
 							o.Err = err.Error()
 						}
@@ -510,7 +528,33 @@ func (e *env) servicePhase(rng *rand.Rand) {
 	}
 	e.svcUpdate("short", 60, 1)
 	e.svcUpdate("long", 70, 3600)
-	time.Sleep(2500 * time.Millisecond)
+	// pd measures lifetimes on its own timestamp clock (which may run ahead of the wall clock and
+	// then stands still until the wall clock has caught up): wait until that clock is past the
+	// recorded expiry of "short"; the bounded wait running out is not a verdict.
+	var shortExp int64 = -1
+	if all, gerr := e.s.GetStorage().GetAllServiceGCSafePoints(); gerr == nil {
+		for _, s := range all {
+			if s.ServiceID == "short" {
+				shortExp = s.ExpiredAt
+			}
+		}
+	}
+	if shortExp < 0 {
+		r.Count("expiry_case_not_registered", 1)
+		return
+	}
+	past := false
+	for k := 0; k < 600 && !past; k++ {
+		time.Sleep(100 * time.Millisecond)
+		ts, terr := e.s.GetTSOAllocatorManager().HandleTSORequest(tso.GlobalDCLocation, 1)
+		if terr == nil && ts.Physical/1000 > shortExp+1 {
+			past = true
+		}
+	}
+	if !past {
+		r.Count("expiry_wait_ran_out", 1)
+		return
+	}
 	resp, err := e.svcUpdate("gc_worker", 80, math.MaxInt64)
 	after, _ := e.s.GetStorage().GetAllServiceGCSafePoints()
 	wit := map[string]interface{}{"stored_after": after}
@@ -518,7 +562,7 @@ func (e *env) servicePhase(rng *rand.Rand) {
 		wit["min"] = resp.MinSafePoint
 		for _, s := range after {
 			if s.ServiceID == "short" {
-				r.Violation("service-safepoint:expired-still-listed", "registration with TTL 1 s still listed 2.5 s later", wit)
+				r.Violation("service-safepoint:expired-still-listed", "registration with TTL 1 s still listed after pd's timestamp clock passed its recorded expiry by more than a second", wit)
 			}
 		}
 		hasLong := false
@@ -528,7 +572,7 @@ func (e *env) servicePhase(rng *rand.Rand) {
 			}
 		}
 		if !hasLong {
-			r.Violation("service-safepoint:live-registration-lost", "registration with TTL 3600 s disappeared after 2.5 s", wit)
+			r.Violation("service-safepoint:live-registration-lost", "registration with TTL 3600 s disappeared within seconds", wit)
 		}
 		if resp.MinSafePoint > 70 {
 			r.Violation("service-safepoint:min-above-live-service", fmt.Sprintf("minimum %d above live service long@70", resp.MinSafePoint), wit)
@@ -689,9 +733,9 @@ func (e *env) serviceGatedPhase() {
 
 func main() {
 	r := ev.New("C15", "exploration")
-	r.Rule("gated: one execution per release order of the storage operations (Load/Save of gc/safe_point) of 2-3 concurrent UpdateGCSafePoint (+1 Get) over value tuples from {10,20,30,40}, enumerated depth-first (distinct = value tuple x released (worker,op) sequence); free-running: 2-16 goroutines, <=3 ops each, random values (distinct = init x sequence of stored values); service safe points: random sequential histories (distinct = accept/reject/remove shape) and gated concurrent registrations (distinct = schedule)")
+	r.Rule("gated: one execution per release order of the storage operations (Load/Save of gc/safe_point) of 2-3 concurrent UpdateGCSafePoint (+1 Get) over value tuples from {10,20,30,40}, enumerated depth-first (distinct = value tuple x released (worker,op) sequence); free-running: 2-16 goroutines, <=3 ops each, random values (distinct = init x sequence of stored values); faulted histories: 8-14 steps from {update, update with fail-before / lost-ack on its save, get, burst of 2 updates + 1 get with a fault on the first save, leader re-election of the serving member} with unique values (distinct = step shape); service safe points: random sequential histories (distinct = accept/reject/remove shape) and gated concurrent registrations (distinct = schedule)")
 	r.Assume("UpdateGCSafePoint/GetGCSafePoint/UpdateServiceGCSafePoint are called on the *server.Server object (the gRPC handler methods) of a real bootstrapped single-member server; storage = core.NewStorage over an instrumented in-memory kv.Base (thorough: also the etcd-backed kv)")
-	r.Assume("expiry clause uses wall-clock: TTL 1 s is expected to be expired after 2.5 s")
+	r.Assume("expiry clause: lifetimes are measured on pd's own timestamp clock (as pd does); the check waits until that clock has passed the recorded expiry by more than a second")
 	rng := rand.New(rand.NewSource(r.ShardSeed()))
 	cfgs := srv.NewConfigs(1, nil)
 	m, err := srv.Start(cfgs[0])
@@ -708,7 +752,7 @@ func main() {
 		r.Inconclusive("bootstrap: %v", err)
 		r.Finish()
 	}
-	e := &env{r: r, s: m.Srv, m: m, ctx: context.Background()}
+	e := &env{r: r, s: m.Srv, m: m, ctx: context.Background(), regionStorage: m.Srv.GetStorage().GetRegionStorage()}
 	backends := []string{"mem"}
 	if r.Thorough() {
 		backends = append(backends, "etcd")
@@ -726,6 +770,7 @@ func main() {
 		e.serviceGatedPhase()
 		r.Count("backends", 1)
 	}
+	e.faultPhase(rng)
 	r.Floor(100)
 	m.Close()
 	r.Finish()
